@@ -49,7 +49,9 @@ def _generate_model_code(
     source: list[str] = []
     # Model components
     variables = model.get_initial_conditions()
-    parameters = model.get_parameter_values()
+    # all parameters, including the ones defined by initial assignments
+    all_parameter_values = model._create_cache().all_parameter_values  # noqa: SLF001
+    parameters = {k: all_parameter_values[k] for k in model.get_parameter_names()}
 
     if imports is not None:
         source.extend(imports)
